@@ -28,20 +28,22 @@ func TestMain(m *testing.M) {
 }
 
 type caseDesc struct {
-	NodeIdLoader bool     `json:"storage_supports_node_id_lookup"`
-	Wrapper      bool     `json:"storage_wrapper"`
-	Records      []string `json:"records_under_node_id_in_lookup_order"`
-	ReqNodeID    string   `json:"request_node_id"`
-	Claimed      string   `json:"claimed_key_of"`
-	NonceSigner  string   `json:"nonce_signed_by"`
-	NonceEmpty   bool     `json:"nonce_empty"`
-	State        string   `json:"client_state"`
-	StateSigner  string   `json:"state_signed_by"`
-	Skip         bool     `json:"skip_verification"`
-	CommonName   string   `json:"common_name,omitempty"`
-	Alien        string   `json:"record_x_has_non_ed25519_key,omitempty"`
-	Expect       string   `json:"model_says"`
-	Got          string   `json:"got,omitempty"`
+	NodeIdLoader   bool     `json:"storage_supports_node_id_lookup"`
+	Wrapper        bool     `json:"storage_wrapper"`
+	Records        []string `json:"records_under_node_id_in_lookup_order"`
+	ReqNodeID      string   `json:"request_node_id"`
+	Claimed        string   `json:"claimed_key_of"`
+	NonceSigner    string   `json:"nonce_signed_by"`
+	NonceEmpty     bool     `json:"nonce_empty"`
+	State          string   `json:"client_state"`
+	StateSigner    string   `json:"state_signed_by"`
+	Skip           bool     `json:"skip_verification"`
+	CommonName     string   `json:"common_name,omitempty"`
+	Alien          string   `json:"record_x_has_non_ed25519_key,omitempty"`
+	RetiredNamedBy []string `json:"records_naming_key_p_as_their_previous_key,omitempty"`
+	SigShape       string   `json:"nonce_signature_shape,omitempty"`
+	Expect         string   `json:"model_says"`
+	Got            string   `json:"got,omitempty"`
 }
 
 func TestProp_Generate(t *testing.T) {
@@ -139,6 +141,21 @@ func TestProp_Generate(t *testing.T) {
 			}
 		}
 		names = append(names, "x")
+		// "p": a retired key. Some records name it as their PREVIOUS certificate key
+		// (as a record does after its node rotated away from p); p has no record of its
+		// own, so a signature by p is a signature by no record's certificate key.
+		actors["p"] = vkit.NewActor("p")
+		d.RetiredNamedBy = nil
+		for _, n := range append(append([]string{}, under...), "o") {
+			if n == "x" || !rapid.Bool().Draw(t, "namesRetiredKey-"+n) {
+				continue
+			}
+			if err := w.EditNode(actors[n].KeyID, func(ni *types.NodeInformation) { ni.PreviousCertificatePublicKeyPkix = actors["p"].CertPkix }); err != nil {
+				t.Fatalf("edit previous key: %v", err)
+			}
+			d.RetiredNamedBy = append(d.RetiredNamedBy, n)
+		}
+		names = append(names, "p")
 		// lookup order for N1
 		order := rapid.Permutation(under).Draw(t, "order")
 		d.Records = order
@@ -190,6 +207,16 @@ func TestProp_Generate(t *testing.T) {
 		}
 		req := &types.GenerateServerCertificatesRequest{
 			CertificatePublicKeyPkix: actors[d.Claimed].CertPkix, NodeId: d.ReqNodeID, Nonce: nonce, NonceSignature: sign(d.NonceSigner, nonce), SkipVerification: d.Skip,
+		}
+		// a genuine signature with bytes appended (or repeated) is not a valid signature
+		d.SigShape = rapid.SampledFrom([]string{"exact", "exact", "exact", "exact", "bytes-appended", "repeated"}).Draw(t, "nonceSignatureShape")
+		if len(req.NonceSignature) > 0 {
+			switch d.SigShape {
+			case "bytes-appended":
+				req.NonceSignature = append(append([]byte(nil), req.NonceSignature...), 0, 1, 2)
+			case "repeated":
+				req.NonceSignature = append(append([]byte(nil), req.NonceSignature...), req.NonceSignature...)
+			}
 		}
 		// the common name is the requester's to choose (the library's own placeholder
 		// name included); it has no bearing on verification
